@@ -8,7 +8,32 @@ claim("C06",
       "Trusted: solvers, go/ssa, SSA->SMT translation, time.Since as an uninterpreted non-negative duration.",
       "DESIGN.md §6 C06")
 
-for pid in ["C01","C02","C03","C04","C05","C07","C09","C10","C11","C12","C13","C14","C15","C16","C17","C18","C19","C20"]:
+claim("C01",
+      "M/U/A contracts over ghost token streams: every leaf codec (hop count, bundle age, creation timestamp, ipn SSP), the primary block "
+      "and the canonical block are proved to write exactly the BPv7 element sequence (Marshal), to decode an encoding of v to v consuming "
+      "exactly its tokens (Unmarshal, behaviour U), and to accept only values that re-serialise (CRC type <= 2, array length consistent with flags).",
+      "Token-level stream model (CBOR heads in shortest form are atomic tokens; non-shortest-form heads are outside the model). Assumed inverse "
+      "pairs: EndpointID codec (reflection dispatch), ExtensionBlockManager.Write/ReadBlock (registry), cboring.ReadMajors/WriteMajors token "
+      "semantics. Bundle-level loop (all canonical blocks) and dtn URI text are not decided yet.",
+      "DESIGN.md §6 C01")
+
+claim("C03",
+      "For PrimaryBlock and CanonicalBlock: Unmarshal succeeds with a non-zero CRC type only if a CRC field was read whose big-endian value equals "
+      "the CRC (uninterpreted crc16x25 / crc32c) over exactly the tokens received for this block with the CRC field zeroed; Marshal writes that value; "
+      "declared CRC <=> CRC field present. All discharged by SMT from the current source.",
+      "CRC polynomial algebra (burst detection) is mathematics taken as given; crc16.Checksum / crc32.Checksum are uninterpreted functions of the "
+      "token sequence; the replayed canonical array head equals the received one only for shortest-form heads (token model).",
+      "DESIGN.md §6 C03")
+
+claim("C16",
+      "Element state machine of the CLA manager: activate/deactivate/isActive are proved against the invariant (ttl<0) <=> adapter running, "
+      "the retry-budget rules (non-permanent: one unit per retryable failure, forgotten at 0; permanent: never forgotten, ttl stays >= 0), "
+      "exactly one stop signal per deactivation and no close of a closed channel, for every 32-bit budget.",
+      "Adapter interface contracts (Start/Close/IsPermanent with ghost $running) are assumed; the goroutine handshake close(stopSyn) -> handler -> Close() "
+      "is not modelled (handler stop arm is a separate obligation); Manager-level registry steps (sync.Map) not yet under contract.",
+      "DESIGN.md §6 C16")
+
+for pid in ["C02","C04","C05","C07","C09","C10","C11","C12","C13","C14","C15","C17","C18","C19","C20"]:
     na(pid, UNBUILT)
 na("C08", "Durability across restarts/crash points and concurrent pushes are history properties of badgerhold/gob/the file system; "
           "the in-repo code is a thin reflection-driven wrapper; no function contract within reach can express or decide them (DESIGN.md §7).")
